@@ -8,6 +8,7 @@ import (
 	"net/http/httptest"
 	"net/url"
 	"strconv"
+	"sync"
 
 	"github.com/google/pprof/internal/plugin"
 	"github.com/google/pprof/profile"
@@ -104,4 +105,26 @@ func VerifC20GetField(name string) string {
 		return "<unknown field>"
 	}
 	return c.get(f)
+}
+
+// VerifC20DeferDelete / VerifC20Cleanup: the temp-file registry (deferDeleteTempFile, cleanupTempFiles).
+func VerifC20DeferDelete(path string) { deferDeleteTempFile(path) }
+func VerifC20Cleanup() error          { return cleanupTempFiles() }
+
+// VerifC20LeakedLocks reports which of the package's mutexes are still held although no operation is
+// running (the caller guarantees quiescence) and releases them so that the process is not wedged.
+func VerifC20LeakedLocks() []string {
+	var out []string
+	for _, m := range []struct {
+		name string
+		mu   *sync.Mutex
+	}{{"currentMu", &currentMu}, {"tempFilesMu", &tempFilesMu}, {"settingsMu", &settingsMu}} {
+		if m.mu.TryLock() {
+			m.mu.Unlock()
+		} else {
+			out = append(out, m.name)
+			m.mu.Unlock()
+		}
+	}
+	return out
 }
